@@ -146,4 +146,39 @@ PROPS = {
             "random mode gives all tracks the same trex defaults (known finding K2); a directed probe exercises K2 every run",
         ],
     },
+
+    "C12": {
+        "level": "exploration",
+        "profiles": ["chk"],
+        "death_is_violation": True,
+        "min_evals": {"quick": 3000, "thorough": 30000},
+        "rule": ("logical movies from the C03 and C09 generators are realised in a canonical layout and in layout variants produced by tree "
+                 "transformations of the reference encoder's box tree: a free/unknown box (32- or 64-bit header) inserted at every top-level position and "
+                 "at every child slot of every iterating container (moov, trak, mdia, minf, stbl, dinf, udta, meta, ilst, ilst items, moof, traf, mvex, "
+                 "avc1, mp4a); order-preserving sibling permutations; a 64-bit header on every single box (including containers, moof, mdat); 1-16 spare "
+                 "bytes after the last field of every fixed-layout/table box. For each subject every single transformation is applied (complete) plus random "
+                 "combinations of 2-6. Oracle: per-sample answers equal the model's for the new layout (offsets shifted exactly) and the accessor transcript "
+                 "(brands, durations, per-track accessors, codec parameters, metadata) equals the canonical one. distinct_nontrivial = distinct "
+                 "(transformation kind, target box path, slot) triples exercised."),
+        "assumptions": [
+            "only containers that iterate over children receive inserted boxes (stsd, edts, hev1, vp09, dref read a fixed child); spare bytes only where the payload is not 'the rest of the box' (DESIGN 8.3)",
+            "fragmented subjects are checked in both delivery modes; sync flags of fragmented tracks are not compared",
+        ],
+    },
+    "C18": {
+        "level": "exploration",
+        "profiles": ["chk"],
+        "death_is_violation": True,
+        "min_evals": {"quick": 700, "thorough": 7000},
+        "rule": ("reference-encoded movies with moov/udta/meta/ilst: every subset of the four items x handler mdir / other x placement (udta/meta, moov/meta, "
+                 "udta without meta, no udta), payload lengths 0/1/255/65536/random, year as decimal text or 4-byte binary, multi-byte UTF-8 text, "
+                 "0-3 unrelated items (arbitrary data types and contents) before/between/after, meta with and without the version/flags word, hdlr first or "
+                 "last, plus movies without user data. Accessor results are compared with the encoded values. distinct = (subset, handler, placement, header "
+                 "form, hdlr position, #extra items, year encoding)."),
+        "assumptions": [
+            "data types of the four known items are those of the library's table (0, 1, 13, 21); unrelated items may carry any type",
+            "a QuickTime-style meta (no version/flags word) is generated with hdlr as first child only (the two forms cannot be told apart otherwise)",
+            "duplicate items and non-numeric year text are not generated (the statement does not define their result)",
+        ],
+    },
 }
